@@ -1,13 +1,18 @@
 //! component `secrets` (C16): secret access keys never appear in any output.
 //!
-//! input fields:  kind  outcome  backend  seed
+//! input fields:  kind  outcome  backend  seed  [len]
 //!   kind     v4hdr | v4hdr-put | v4hdr-unsigned | v4pre | v4chunk | v4post | v2hdr | v2hdr-put | v2pre
 //!            | anon (no credentials at all)
 //!            | canary-log | canary-debug | canary-response      (the harness leaks on purpose: the scanner must see it)
 //!   outcome  ok | anonymous | badsig | wrongsecret | unknownkey | tampered | expired | skewed | malformed1..3 | badchunk | truncated
 //!   backend  rec (recording backend)  |  fs (recording backend in front of the real `s3s_fs::FileSystem`)
 //!            | rec+acc / fs+acc  (same, plus a recording `S3Access`)
-//!   seed     decimal; secret (40 chars), access keys, bucket, key and body derive from it
+//!   seed     decimal; secrets, access keys, bucket, key and body derive from it
+//!   len      length of the secrets in bytes (default 40, the length of an AWS secret access key).  The generator
+//!            runs the whole matrix at 1, 16, 40, 64, 124, 125, 128, 129, 200, 512, 1024 (124/125 and 128/129 straddle
+//!            the 128-byte inline buffer `AWS4`+secret is staged in) and, in the thorough tier, sweeps 1..=600.
+//!            Secrets shorter than 12 bytes occur by chance in any text, so for them only the `AWS4`-prefixed
+//!            forms and the derived keys are searched.
 //!
 //! Every case registers two key pairs in `SimpleAuth`, signs the request with the harness's own signers
 //! (written from the AWS documents; HMAC/SHA primitives come from `s3s::verif_hooks::utils::crypto`), sends it
@@ -579,6 +584,12 @@ struct Keys {
     client_ak: String,     // what the client claims (differs for `unknownkey`)
 }
 
+/// a string of the same length that differs in its first character (short secrets collide by chance)
+fn differ(s: &str) -> String {
+    let first = if s.as_bytes()[0] == b'A' { 'B' } else { 'A' };
+    format!("{first}{}", &s[1..])
+}
+
 fn token(rng: &mut Rng, n: usize, alphabet: &[u8]) -> String {
     (0..n).map(|_| alphabet[rng.below(alphabet.len() as u64) as usize] as char).collect()
 }
@@ -859,27 +870,38 @@ fn find(hay: &[u8], needle: &[u8]) -> bool {
     false
 }
 
+/// below this length a secret occurs by chance in ordinary text: only its `AWS4`-prefixed forms are searched
+const MIN_RAW_LEN: usize = 12;
+
 fn needles(keys: &Keys, date8: &str) -> Vec<(String, Vec<u8>)> {
     let mut v = Vec::new();
     for (who, s) in [("secret", &keys.secret), ("other", &keys.other_secret)] {
-        v.push((format!("{who}-raw"), s.as_bytes().to_vec()));
+        let n = s.len();
         // the `AWS4`-prefixed form contains the raw form; it is listed so that the report names it
         v.push((format!("{who}-aws4"), format!("AWS4{s}").into_bytes()));
-        v.push((format!("{who}-hex"), hex(s.as_bytes()).into_bytes()));
-        v.push((format!("{who}-HEX"), hex(s.as_bytes()).to_uppercase().into_bytes()));
         v.push((format!("{who}-aws4hex"), hex(format!("AWS4{s}").as_bytes()).into_bytes()));
-        v.push((format!("{who}-b64"), b64(s.as_bytes()).into_bytes()));
         v.push((format!("{who}-aws4b64"), b64(format!("AWS4{s}").as_bytes()).into_bytes()));
-        let pe = uri_encode(s, true);
-        if pe != **s {
-            v.push((format!("{who}-pct"), pe.into_bytes()));
+        if n >= MIN_RAW_LEN {
+            v.push((format!("{who}-raw"), s.as_bytes().to_vec()));
+            v.push((format!("{who}-hex"), hex(s.as_bytes()).into_bytes()));
+            v.push((format!("{who}-HEX"), hex(s.as_bytes()).to_uppercase().into_bytes()));
+            v.push((format!("{who}-b64"), b64(s.as_bytes()).into_bytes()));
+            let pe = uri_encode(s, true);
+            if pe != **s {
+                v.push((format!("{who}-pct"), pe.into_bytes()));
+            }
         }
         // `{:?}` of the bytes (`[68, 50, …]`), without the brackets so that a longer buffer holding them matches too
         let dec = |b: &[u8]| b.iter().map(u8::to_string).collect::<Vec<_>>().join(", ");
-        v.push((format!("{who}-decimal"), dec(s.as_bytes()).into_bytes()));
-        // a 20-character piece is already a disclosure
-        v.push((format!("{who}-half"), s.as_bytes()[..20].to_vec()));
-        v.push((format!("{who}-tail"), s.as_bytes()[20..].to_vec()));
+        if n >= MIN_RAW_LEN {
+            v.push((format!("{who}-decimal"), dec(s.as_bytes()).into_bytes()));
+        }
+        // half of a key of ordinary length or more (>= 20 characters) is already a disclosure
+        if n >= 40 {
+            v.push((format!("{who}-half"), s.as_bytes()[..n / 2].to_vec()));
+            v.push((format!("{who}-tail"), s.as_bytes()[n / 2..].to_vec()));
+        }
+        // the derived keys are 32 full-entropy bytes whatever the length of the secret
         if !date8.is_empty() {
             for (i, k) in v4_keys(s, date8).iter().enumerate() {
                 v.push((format!("{who}-derived{}hex", i + 1), hex(k).into_bytes()));
@@ -911,8 +933,13 @@ fn evaluate(f: &[&str]) -> Vec<String> {
     let (kind, outcome, backend) = (f[0], f[1], f[2]);
     let seed: u64 = f[3].parse().expect("seed");
     let mut rng = Rng::new(seed ^ 0xC16C_16C1);
-    let secret = token(&mut rng, 40, SECRET_ALPHABET);
-    let other_secret = token(&mut rng, 40, SECRET_ALPHABET);
+    let len: usize = f.get(4).map_or(40, |x| x.parse().expect("len"));
+    assert!(len >= 1, "len");
+    let secret = token(&mut rng, len, SECRET_ALPHABET);
+    let mut other_secret = token(&mut rng, len, SECRET_ALPHABET);
+    if other_secret == secret {
+        other_secret = differ(&secret);
+    }
     let ak = format!("AKIA{}", token(&mut rng, 16, UPPER_ALNUM));
     let other_ak = format!("AKIA{}", token(&mut rng, 16, UPPER_ALNUM));
     let bucket = format!("bkt-{}", token(&mut rng, 8, LOWER_ALNUM));
@@ -920,7 +947,12 @@ fn evaluate(f: &[&str]) -> Vec<String> {
     let body_len = 64 + rng.below(200) as usize;
     let body: Vec<u8> = token(&mut rng, body_len, LOWER_ALNUM).into_bytes();
     let keys = Keys {
-        client_secret: if outcome == "wrongsecret" { token(&mut rng, 40, SECRET_ALPHABET) } else { secret.clone() },
+        client_secret: if outcome == "wrongsecret" {
+            let w = token(&mut rng, len, SECRET_ALPHABET);
+            if w == secret { differ(&secret) } else { w }
+        } else {
+            secret.clone()
+        },
         client_ak: if outcome == "unknownkey" { format!("AKIA{}", token(&mut rng, 16, UPPER_ALNUM)) } else { ak.clone() },
         ak,
         secret,
@@ -1148,17 +1180,40 @@ fn outcomes_of(kind: &str) -> Vec<&'static str> {
     v
 }
 
+/// lengths at which the whole matrix is run (40 = ordinary key; 124|125 and 128|129 straddle the inline staging buffer)
+const LENGTHS: [usize; 11] = [1, 16, 40, 64, 124, 125, 128, 129, 200, 512, 1024];
+
 fn generate(rng: &mut Rng, n: u64, tier: &str, emit: &mut dyn FnMut(Vec<String>)) {
     let kinds = ["v4hdr", "v4hdr-put", "v4hdr-unsigned", "v4pre", "v4chunk", "v4post", "v2hdr", "v2hdr-put", "v2pre"];
     let backends = ["rec", "fs", "rec+acc", "fs+acc"];
     for c in ["canary-log", "canary-debug", "canary-response"] {
         emit(vec![c.to_owned(), "ok".to_owned(), "rec".to_owned(), rng.next().to_string()]);
     }
-    let _ = tier;
     let reps = n.max(1);
     for be in backends {
         emit(vec!["anon".to_owned(), "anonymous".to_owned(), be.to_owned(), rng.next().to_string()]);
     }
+    // 1. the whole matrix (kind x outcome x backend) at each of the listed secret lengths
+    for len in LENGTHS {
+        for k in kinds {
+            for o in outcomes_of(k) {
+                for be in backends {
+                    emit(vec![k.to_owned(), o.to_owned(), be.to_owned(), rng.next().to_string(), len.to_string()]);
+                }
+            }
+        }
+    }
+    // 2. thorough: every length 1..=600, every kind, accepted and refused (wrong signature)
+    if tier == "thorough" {
+        for len in 1..=600usize {
+            for k in kinds {
+                for o in ["ok", "badsig"] {
+                    emit(vec![k.to_owned(), o.to_owned(), "rec".to_owned(), rng.next().to_string(), len.to_string()]);
+                }
+            }
+        }
+    }
+    // 3. `reps` times the whole matrix with fresh 40-byte secrets
     for _ in 0..reps {
         for k in kinds {
             for o in outcomes_of(k) {
